@@ -83,7 +83,9 @@ CLAIMS['C02'] = dict(
     text=('The decision table of the property is enumerated as abstract input classes (range of each unit at the cursor x units remaining: '
           '48 UTF-8, 10 UTF-16, 3 UTF-32 classes); validate_utf8, cleanup_utf8, extract_utf8 and every converter are interpreted for one '
           'arbitrary iteration under each class, mode and flag (735 runs) and must accept / reject / substitute exactly as the table says, '
-          'skipping exactly one unit on rejection. Error mapping, set() dispatch, substitute constants and the spelling of all 111 '
+          'skipping exactly one unit on rejection. Every converter that takes a mode is also interpreted exactly (no loop abstraction) on all '
+          'inputs of one and of two units under substitute_invalid and returns the success code on every path (substitution never fails). '
+          'Error mapping, set() dispatch, substitute constants and the spelling of all 111 '
           'instantiated default arguments (AST query) complete the argument; induction over iterations extends it to whole inputs.'),
     note=('relative to: clang-14 lowering, STIR, the transcribed table; behaviour of assume_valid on malformed input is only required to be '
           'total (C03); 5 default arguments in never-instantiated 16-bit-wchar_t templates are not covered'),
@@ -119,7 +121,8 @@ CLAIMS['C08'] = dict(
           '(offset,length) of the result is compared with the clamp formula of the property (mismatches come with concrete witnesses). '
           'The trim walks are shown to stay inside [0,size] (widening with verified cursor bounds) and to call substr inside the string. '
           'The 12 before_/after_ overloads are interpreted with the search result as a symbol: on a match the slice is left(i) / '
-          'substr(i + length of the separator searched for), without a match the whole / empty string as the property tabulates.'),
+          'substr(i + length of the separator searched for), without a match the whole / empty string as the property tabulates; every read '
+          'of the string\'s storage on every explored path of these members lies inside it (a violation comes with a witness).'),
     note=('relative to: clang-14 lowering, STIR, C05 (storage of size()+1 units terminated at size()), C07 for the meaning of the index '
           'returned by find/find_last; which bytes a trim removes (membership in the set) is delegated to find_cs'),
     technique='static analysis: abstract interpretation with free scalars at full range (linear terms + intervals), oracle clamp formula, witness search')
@@ -130,8 +133,10 @@ CLAIMS['C06'] = dict(
           'comparator verdict, else has the sign of the size difference (concrete witnesses otherwise, e.g. lengths 0 and 2^32), and the '
           'prefix length is min(lsize,rsize); the maxlen forms clamp and delegate. The ASCII fold maps are compared class by class with '
           'A-Z<->a-z; an SSA rule keeps unfolded units out of compare_ci / find_ci / hash_i; compare_ci\'s step (one folded unit each side, '
-          'difference iff different) and the 16 derived members / operators (core on (data,size) of both operands, right predicate, null '
-          'const char* = empty, no read past a C string\'s NUL) are checked by interpretation; no comparison / search member hands the string to a '
+          'difference iff different) and the derived members / operators of ST::string, the compare / compare_n / == / != / < members of all four '
+          'buffer<T> types (small and large operands) and less_i / equal_i (core on (data,size) of both operands, right predicate, null '
+          'pointer = empty, no read past a C string\'s NUL; an equality that bypasses the ordering core must reject different sizes and '
+          'otherwise compare exactly size() units of both storages) are checked by interpretation; no comparison / search member hands the string to a '
           'C primitive that stops at the first NUL (strcmp family; expected-zero rule with a positive control).'),
     note=('relative to: clang-14 lowering, STIR, std::char_traits<T>::compare being unsigned lexicographic (libstdc++); antisymmetry and '
           'transitivity follow from the lexicographic structure and are not mechanised separately; hash equality for equal strings follows from '
@@ -140,7 +145,8 @@ CLAIMS['C06'] = dict(
 CLAIMS['C12'] = dict(
     level='proof',
     text=('All 12 signed integer printers (from_int cores, ST::format\'s numeric renderer, string_stream <<) are interpreted with the value '
-          'free over its whole type: the term handed to uint_formatter::format equals |value| on every path, no signed operation on the '
+          'free over its whole type: the term handed to uint_formatter::format equals |value| on every path (a path that renders without the '
+          'digit generator may not have written fewer characters than the value needs in the radix), no signed operation on the '
           'way can overflow (witness: the most negative value) and no abs() family call exists; the digit loop of every uint_formatter<U> '
           'is summarised per iteration (value := value / radix, one unit stored backwards, from index digits of a digits+1 buffer) which '
           'with the halving lemma bounds it by the width of U; the 7 parsing members are interpreted against the ok / full_match table '
@@ -162,7 +168,8 @@ CLAIMS['C13'] = dict(
 CLAIMS['C14'] = dict(
     level='proof',
     text=('The four constant tables are compared entry by entry with RFC 4648 (alphabets; decode tables are their inverses, hex also A-F, '
-          'everything else incl. \'=\' is -1). Bit provenance of every table index computed by the encoders (hex nibbles; base64 full group '
+          'everything else incl. \'=\' is -1). Bit provenance of every table index computed by every function that holds an encoding loop (plain '
+          'or template instantiation; the table is any constant that is the alphabet) (hex nibbles; base64 full group '
           'and both tail forms with their \'=\' count) and of every byte rebuilt by the decoders from the table values is compared bit for bit '
           'with the RFC layout, per loop iteration (so for any length); a byte that depends on a table value of another group is flagged. '
           'Allocation terms (size*2, ((size+2)/3)*4) and the sharing of one decoder core by both decoder forms complete decode(encode(x)) == x.'),
@@ -238,7 +245,7 @@ CLAIMS['C17'] = dict(
           'instantiation builds one writer over its format string and runs apply_format, the string forms ending in to_string(true, mode) '
           'resp. to_string(false, assume_valid); operator<< inserts basic_string(b.data(), b.size()) of to_buffer(b) and operator>> sets '
           'the string from the extracted token (c_str(), size()). Not decided: that libc / iostream deliver what they are handed, what the '
-          'conversions and the driver produce (C01-C03, C10, C11); a writer that buffers or chunks its output is reported undecided.'),
+          'conversions and the driver produce (C01-C03, C10, C11); for a writer that stages bytes in a buffer of its own the call-order clause is decided (no byte of a later call reaches the sink while staged bytes may be pending: witness with one staged byte), that it flushes everything in the end is reported undecided; a writer that chunks or re-encodes piecewise is undecided.'),
     note=('relative to: clang-14 lowering, STIR, libc / libstdc++ output primitives trusted, C10 (dispatch only through append / append_char), '
           'C16; writers instantiated in gen/driver.cpp; level "other": necessary hand-over facts plus a stated (not mechanised) induction over the call sequence'),
     technique='static analysis: abstract interpretation of the sink members with symbolic arguments (sink-call events vs the arguments received), call-graph facts for the entry points')
